@@ -20,6 +20,7 @@
   with `pairs (run a es)`, which is `listRun (pairs a) es` by `C17_run_refines`.
 -/
 import QExPy.Lemmas.ArrayEdit
+import QExPy.Lemmas.Stats
 
 namespace QExPy.ArrayEdit
 open QExPy
@@ -552,18 +553,13 @@ theorem C17_length (a a' : Arr α) (e : Edit α) (h : edit a e = some a') :
 /-- **C17.** `sum()` is Σ x_i ± sqrt(Σ s_i²). -/
 theorem C17_sum (a : Arr ℝ) :
     ArrayEdit.sum a = ((values a).sum, Real.sqrt (((errors a).map (· ^ 2)).sum)) := by
-  simp only [ArrayEdit.sum, Stats.sumPair, numSum_eq, num_sqrt]
-  have : (errors a).map Num.sq = (errors a).map (· ^ 2) := by
-    apply List.map_congr_left
-    intro x _
-    simp [Num.sq, sq]
-  rw [this]
+  rw [ArrayEdit.sum, Stats.sumPair_eq]
 
 /-- **C17.** `mean()` is the arithmetic mean ± std()/√n. -/
 theorem C17_mean (a : Arr ℝ) :
     (ArrayEdit.mean a).1 = (values a).sum / (values a).length ∧
     (ArrayEdit.mean a).2 = ArrayEdit.std a / Real.sqrt (values a).length := by
-  simp [ArrayEdit.mean, ArrayEdit.std, Stats.meanPair, Stats.mean, Stats.sem, numSum_eq]
+  simp [ArrayEdit.mean, ArrayEdit.std, Stats.meanPair_eq, Stats.mean_eq, Stats.sem_eq]
 
 /-- **C17.** `std()` is the sample standard deviation (divisor n − 1) of the central values. -/
 theorem C17_std (a : Arr ℝ) :
@@ -571,13 +567,7 @@ theorem C17_std (a : Arr ℝ) :
       = Real.sqrt ((((values a).map
           (fun x => (x - (values a).sum / (values a).length) ^ 2)).sum)
           / ((values a).length - 1 : ℕ)) := by
-  simp only [ArrayEdit.std, Stats.std1, Stats.var1, Stats.ssq, Stats.devs, Stats.mean,
-    numSum_eq, num_sqrt, num_div, num_ofNat, List.map_map]
-  have : (Num.sq ∘ fun x : ℝ => Num.sub x ((values a).sum / ((values a).length : ℝ)))
-      = fun x => (x - (values a).sum / ((values a).length : ℝ)) ^ 2 := by
-    funext x
-    simp [Num.sq, sq]
-  rw [this]
+  rw [ArrayEdit.std, Stats.std1_eq, Stats.var1_eq, Stats.ssq_eq, Stats.mean_eq]
 
 /-- **C17.** The aggregates only see the pairs: `values` / `errors` are the two projections of
     `pairs`, so after any history they are those of the Python list. -/
